@@ -12,15 +12,17 @@ model file reads (stream names, params layout, catalogue batch) are regenerated 
 (AREAS) and are proved equal to the pinned format constants in props/C02B.v writer_eq_spec."""
 
 PROP = "C01G"
-AREAS = ["agcv3", "kmer", "segment", "pipeline", "groupstore", "tuple", "lz", "collection", "archive"]
+AREAS = ["agcv3", "kmer", "segment", "pipeline", "groupstore", "tuple", "lz", "collection", "archive", "fasta"]
 NO_MODEL_RUN = True
-THEOREMS = ["grand_roundtrip", "model_create_build", "model_build_total", "history_wf", "history_state", "readers_agree"]
+THEOREMS = ["grand_roundtrip", "model_create_build", "model_build_total", "history_wf", "history_state", "readers_agree",
+            "text_samples_shape", "text_roundtrip"]
 RULE = ("proof-only sub-check of C01: bin/check rebuilds props/C01G.vo from the regenerated constants, re-runs coqc on "
         "props/C01G.v and requires 'Closed under the global context' under every pinned theorem; the non-vacuity Example "
         "grand_roundtrip_nonvacuous runs model_build on a two-sample input (split segment, reverse-complemented pieces, raw "
         "group + two LZ groups, two store rounds, toy zstd) by vm_compute, discharges every hypothesis of grand_roundtrip "
-        "and computes AgcV3.decode / decode_strict of the produced file bytes = the input. No generated cases: the tie of "
-        "each composed layer to the Rust code is the correspondence of C01, C02, C02B, C03, C07, C09, C12, C13")
+        "and computes AgcV3.decode / decode_strict of the produced file bytes = the input; text_roundtrip_nonvacuous does the "
+        "same from two FASTA texts (Fasta.v reader and catalogue grouping, C16's create_view). No generated cases: the tie of "
+        "each composed layer to the Rust code is the correspondence of C01, C02, C02B, C03, C07, C09, C12, C13, C16, C19")
 TRUSTED = ["coq/model/ModelCreate.v: the ORDER of Archive calls (registration order of the seven fixed streams, x<id>d before "
            "x<id>r per new group, add_part_buffered for every part, params/splitters/segment-splitters/catalogue/"
            "file_type_info last, one flush, close) is a hand transcription of agc_compressor.rs with_splitters/finalize; "
@@ -37,7 +39,9 @@ ASSUMPTIONS = ["zstd: zd (zc l x) = Some x and zc l x <> [] for all levels and i
                "create succeeds: no repeated contig name in a sample); model_build_total: nothing else can fail",
                "domain hypotheses on intermediate objects, inherited from C03 and C13: catalogue_in_dom (names over bytes "
                "1..127, ids below 2^31, group ids below 2^32-1, stream sizes below 2^32), every part metadata below 2^64, "
-               "file not longer than 2^63-1 bytes"]
+               "file not longer than 2^63-1 bytes",
+               "text_roundtrip: text_samples files = Ok arch (create accepts the FASTA inputs), sample names non-empty, "
+               "2*|contig| + min_match_len < 2^31; shape / alphabet hypotheses are PROVED from the parser (text_samples_shape)"]
 
 
 def gen_cases(rng, tier):
